@@ -44,6 +44,19 @@ def check_cond_initialised(mod, rep, rid):
         else:
             memo[name] = paths_avoiding(f, first, lambda i: i.op == 'ret', bar) is None
         return memo[name]
+    emem = {}
+    def enqueues(name, depth=0):
+        """the list-insertion primitives, and helpers that reach them (an enqueue step extracted into a function of its own)"""
+        if name.startswith('nsync_dll_make_'):
+            return True
+        if name in emem:
+            return emem[name]
+        emem[name] = False
+        g = mod.func(name)
+        if g is None or g.decl or depth > 2:
+            return False
+        emem[name] = any(i.op == 'call' and i.callee and i.callee != name and enqueues(i.callee, depth + 1) for i in g.real_insts())
+        return emem[name]
     n = 0
     for f in mod.defined.values():
         if f.name == 'nsync_waiter_new_':
@@ -51,7 +64,11 @@ def check_cond_initialised(mod, rep, rid):
         for c in f.real_insts():
             if not (c.op == 'call' and c.callee == 'nsync_waiter_new_'):
                 continue
-            enq = lambda i: i.op == 'call' and (i.callee or '').startswith('nsync_dll_make_')
+            wset = util.derived_set(f, c.id)
+            # the list primitives themselves, or a helper of the same file (an extracted step) that reaches them and is handed this record;
+            # functions of other files (nsync_waiter_free_ puts the record on the free pool) are judged where they are defined
+            enq = lambda i: i.op == 'call' and bool(i.callee) and i.callee != 'nsync_waiter_new_' and (i.callee.startswith('nsync_dll_make_') or
+                            (enqueues(i.callee) and (mod.func(i.callee).file == f.file) and any(isinstance(o, str) and o in wset for o in i.ops)))
             if not any(enq(i) for i in f.real_insts()):
                 continue
             n += 1
